@@ -9,7 +9,7 @@
 //! recogniser stops on the printed text / the tree path that differs), not the text.
 
 use crate::c12;
-use crate::corpus::{self, Base};
+use crate::corpus::{self, Base, Tight};
 use crate::real::{self, Docs};
 use crate::reference;
 use mc_core::{catch, panic_site, Ctx};
@@ -242,12 +242,14 @@ pub fn run(args: &[String]) -> ! {
     let work: Vec<(&Base, &[String])> =
         shallow.docs.iter().map(|b| (b, &subs_full[..])).chain(deep_only.iter().map(|b| (*b, &subs_small[..]))).collect();
     let two_gap = c12::two_gap_set(tier, reps);
+    let scope = c12::tight_scope(tier, &subs_small);
     let parts: Vec<Stats> = work
         .par_chunks(16)
         .map(|chunk| {
             let mut st = Stats::default();
+            let mut tight = Tight::default();
             for (b, subs) in chunk {
-                c12::family(b, subs, two_gap.contains(&corpus::join(&b.toks)), |kind, text| st.record(kind, &text));
+                c12::family(b, subs, two_gap.contains(&corpus::join(&b.toks)), scope, &mut tight, |kind, text| st.record(kind, &text));
                 corpus::for_each_layout(&b.toks, &corpus::DOC_SEPARATORS, |t| st.record("doc-comment-layout", &t));
             }
             st
@@ -304,7 +306,7 @@ pub fn run(args: &[String]) -> ! {
         "rule".into(),
         json!(format!(
             "the C12 corpus at the same bound (spine-exhaustive E(X,{depth}) for every non-terminal, all single-token mutants, \
-             subtree deletions, one-gap layout deviations{}; full substitute set to depth {full_depth}{}), plus every one of {} doc-comment \
+             subtree deletions, one-gap layout deviations{}; full substitute set to depth {full_depth}{}; {}), plus every one of {} doc-comment \
              forms at every gap of every base document, plus every .wac file under /repo/crates/*/tests and /repo/examples; \
              an evaluation = one text the parser accepts, round-tripped (parse, print, parse, compare, print, compare); \
              distinct_nontrivial = distinct accepted texts (64-bit SipHash) whose tree has at least one statement or a targets clause \
@@ -314,6 +316,7 @@ pub fn run(args: &[String]) -> ! {
                 Some(k) => format!(", ordered statement pairs of E(statement,{k})"),
                 None => String::new(),
             },
+            c12::tight_rule(scope),
             corpus::DOC_SEPARATORS.len()
         )),
     );
@@ -322,6 +325,10 @@ pub fn run(args: &[String]) -> ! {
     cov.insert("bound_completed".into(), json!({"depth": depth, "depth_with_full_substitute_set": full_depth, "max_repetitions": reps, "statement_pair_depth": pairs}));
     cov.insert("base_documents".into(), json!(shallow.docs.len() + deep_only.len()));
     cov.insert("texts_by_kind_total_and_round_tripped".into(), json!(st.by_kind));
+    let tight = c12::tight_by_kind(&st.by_kind);
+    cov.insert("tight_layout_texts".into(), json!(tight.values().map(|v| v[0]).sum::<u64>()));
+    cov.insert("tight_layout_texts_round_tripped".into(), json!(tight.values().map(|v| v[1]).sum::<u64>()));
+    cov.insert("tight_layout_texts_by_kind_total_and_round_tripped".into(), json!(tight));
     cov.insert("per_construct_hits_in_round_tripped_trees".into(), json!(st.constructs));
     cov.insert("constructs_never_printed".into(), json!(unprinted));
     cov.insert("distinct_outcomes".into(), json!(1 + st.violations.len()));
